@@ -12,7 +12,7 @@ if [ "$1" = "-e" ]; then
   sed -i -e "$2" "$D/repo/$3"; shift 3
   if cmp -s "$D/repo/$3" "/repo/$3" 2>/dev/null; then :; fi
 else
-  (cd "$D/repo" && patch -p1 -s < "$1"); shift 1
+  P=$(realpath "$1"); (cd "$D/repo" && patch -p1 -s < "$P"); shift 1
 fi
 [ "$1" = "--" ] && shift
 (cd "$D/repo" && diff -ru /repo/src src | head -30) || true
